@@ -7,6 +7,7 @@
 -/
 import Jesse.Wire
 import Jesse.Accounts
+import Jesse.TradeLog
 
 namespace Driver.Acct
 open Jesse Jesse.Wire Jesse.Acc
@@ -37,7 +38,9 @@ def showWorld (w : World) : String :=
   (match w.kind with | .futures => s!" margin={showRat (availableMargin w)}" | .spot => "") ++
   " " ++ " ".intercalate per ++
   " st=" ++ "".intercalate (w.orders.map (fun o => showStatus o.status)) ++
-  " trades=[" ++ ";".intercalate (w.trades.map showTrade) ++ "]"
+  " trades=[" ++ ";".intercalate (w.trades.map showTrade) ++ "]" ++
+  s!" TP {w.trades.length}" ++ "".intercalate (w.trades.map (fun t =>
+    if qtySum t.buys = 0 ∨ qtySum t.sells = 0 then " nan" else " " ++ showRat (Trade.pnl w.fee t)))
 
 def handle (st : Option World) (args : List String) : Option World × String :=
   match args with
